@@ -2,7 +2,8 @@ import Driver.Util
 import Lean.Data.Json
 import GqlgenVerif.Model.Stream
 import GqlgenVerif.Model.StreamGen
-open GqlgenVerif GqlgenVerif.Stream
+import GqlgenVerif.Model.StreamLoopGen
+open GqlgenVerif GqlgenVerif.Stream GqlgenVerif.StreamLoop
 namespace Driver.C12
 
 def opt : Option Bytes → String
@@ -87,9 +88,36 @@ def mpVerdict (full : Bool) (boundary : Bytes) (ps : List Resp) (raw : Bytes) : 
     else (if mpSpecPrefix genMp ps r then "ok" else "violates:prefix-parts")
   v ++ " " ++ showList (r.1.map showMItem) (r.2 && !full)
 
+def showEnd : End → String
+  | .done => "done"
+  | .nilDeref => "nil-response-handed-to-writer"
+  | .runaway => "handler-asked-again-after-end"
+
+def parseFinB (s : String) : Option (Option Bytes) := if s = "-" then some none else (unhex s).map some
+
+def parseFinR (s : String) : Option (Option Resp) :=
+  if s = "-" then some none else (parseResps s).bind fun l => match l with | [r] => some (some r) | _ => none
+
 /-- one line in, one line out -/
 def step (line : String) : String :=
   match line.splitOn " " with
+  -- `sseo` / `mpo`: an operation = good responses, then nil (`-`) or a panic (the error response);
+  -- the regenerated response loop decides what reaches the writer
+  | ["sseo", ka, good, fin, sched] =>
+    match parsePayloads good, parseFinB fin, parseSched sched with
+    | some good, some fin, some sched =>
+      let e := (runLoop Gen.StreamLoop.nextFacts Gen.StreamLoop.sseLoop good fin ⟨true, []⟩).2
+      let cs := sseChunks (ka != "0") (genSseDelivered good fin) sched
+      hex (chunksBytes genSse cs) ++ " " ++ showList (cs.map fun c => showItem c.item) false ++ " " ++ showEnd e
+    | _, _, _ => "bad-op"
+  | ["mpo", b, good, fin, sched] =>
+    match unhex b, parseResps good, parseFinR fin, parseSched sched with
+    | some b, some good, some fin, some sched =>
+      let e := (runLoop Gen.StreamLoop.nextFacts Gen.StreamLoop.mpLoop good fin ⟨Gen.StreamLoop.mpFirstInit, []⟩).2
+      let bytes := groupsBytes genMp b (mpGroups (genMpDelivered good fin) sched)
+      let r := parseMP b bytes
+      hex bytes ++ " " ++ showList (r.1.map showMItem) false ++ " " ++ showEnd e
+    | _, _, _, _ => "bad-op"
   | ["sse", ka, ps, sched] =>
     match parsePayloads ps, parseSched sched with
     | some ps, some sched =>
